@@ -81,6 +81,27 @@ Theorem C10_eps_get_overlap_complete : forall s s', In s l -> In s' l -> s <> s'
 Proof. exact (get_overlap_eps_complete eps Heps l Hl). Qed.
 End C10_eps.
 
+(* Annotation.get_overlap(), every precision *)
+Section C10_eps_ann.
+Variable eps : Z.
+Hypothesis Heps : 0 <= eps.
+Variable a : ann.
+Hypothesis W : WF eps (a_tracks a).
+Theorem C10_eps_annotation_get_overlap_shape :
+  separated eps 0 (get_overlap_ann eps a None) /\ Forall (ne eps) (get_overlap_ann eps a None).
+Proof. exact (ann_get_overlap_eps_shape eps Heps a). Qed.
+(* a reported time point has two tracks with different labels active, or lies in a gap no longer than eps between
+   two such intersections *)
+Theorem C10_eps_annotation_get_overlap_sound : forall k, covers_cell (get_overlap_ann eps a None) k ->
+  two_labels_active a k \/ in_bridged_gap eps 0 (label_overlaps eps a) k.
+Proof. exact (ann_get_overlap_eps_sound eps Heps a W). Qed.
+(* every intersection, longer than eps, of two tracks with different labels is inside one reported overlap *)
+Theorem C10_eps_annotation_get_overlap_complete : forall s t l s' t' l',
+  getitem a s t = Some l -> getitem a s' t' = Some l' -> l <> l' -> nonempty eps (sand s s') = true ->
+  exists o, In o (get_overlap_ann eps a None) /\ st o <= Z.max (st s) (st s') /\ Z.min (en s) (en s') <= en o.
+Proof. exact (ann_get_overlap_eps_complete eps Heps a W). Qed.
+End C10_eps_ann.
+
 Example C10_eps_nonvacuous :
   wf 4 [(0,40); (10,20); (10,63); (80,90); (90,110)] /\
   segmentation 4 [(0,40); (10,20); (10,63); (80,90); (90,110)] = [(0,10); (10,20); (20,40); (40,63); (80,90); (90,110)] /\
@@ -108,3 +129,6 @@ Print Assumptions C10_eps_segmentation_sorted.
 Print Assumptions C10_eps_get_overlap_shape.
 Print Assumptions C10_eps_get_overlap_sound.
 Print Assumptions C10_eps_get_overlap_complete.
+Print Assumptions C10_eps_annotation_get_overlap_shape.
+Print Assumptions C10_eps_annotation_get_overlap_sound.
+Print Assumptions C10_eps_annotation_get_overlap_complete.
